@@ -16,7 +16,7 @@ from hypothesis import strategies as st
 from hypothesis.stateful import RuleBasedStateMachine, initialize, precondition, rule
 
 from vf import strategies as vs
-from vf.common import Violation
+from vf.common import CEIL, Violation
 from vf.world import World
 
 IDX = st.integers(0, 31)
@@ -144,9 +144,12 @@ class HistoryMachine(RuleBasedStateMachine):
         self.do({"op": "merge", "i": i, "j": j})
 
     @precondition(lambda self: self.SAVELOAD)
-    @rule(i=SK, via=st.sampled_from(["class", "module"]), shm=st.sampled_from([False, False, False, True]))
-    def save_load(self, i, via, shm):
-        self.do({"op": "save_load", "i": i % self.N, "via": via, "shm": shm})
+    @rule(i=SK, via=st.sampled_from(["class", "module"]), shm=st.sampled_from([False, False, False, True]), slot=st.sampled_from([None, None, 0, 0, 1]))
+    def save_load(self, i, via, shm, slot):
+        step = {"op": "save_load", "i": i % self.N, "via": via, "shm": shm}
+        if slot is not None:
+            step["slot"] = slot
+        self.do(step)
 
 
 def replay_trace(case, checker_factory):
@@ -162,6 +165,20 @@ def replay_trace(case, checker_factory):
             check(touched, step)
     finally:
         w.close()
+
+
+def huge_log_rule():
+    """add(key, v) with v around 2^63..2^64-1 on a log sketch: the kernel stops at the ceiling, so the call is cheap
+    whenever max_count is small (expected ~max_count loop iterations)"""
+
+    @rule(i=SK, ki=IDX, v=st.sampled_from([2**63 - 1, 2**63, 2**63 + 5, 2**64 - 1]), d=st.sampled_from([0.0, 0.5, 1.0 - 2.0**-53]))
+    def add_huge_log(self, i, ki, v, d):
+        cfg = self.world.cfg
+        if cfg["kind"] in ("log8", "log16") and cfg.get("max_count", CEIL) <= 10**6:
+            # the planted draw fills the current batch of 2048; the kernel refills it from its generator afterwards
+            self.do({"op": "add", "i": i % self.N, "k": self.key(ki), "v": v, "draws": [d]})
+
+    return add_huge_log
 
 
 def make_machine(name, checker_cls, rec, holder, **attrs):
